@@ -168,8 +168,12 @@ def main():
                 with open(step["pkl"], "wb") as f:
                     cp.dump(job, f)
                 # reference: the same task run in this session into another cache
-                ref = make_task(step["task"], random.Random(prog["perm"] + 1))(cache_root=step["refcache"], worker="debug")
-                r["out"] = outputs_plain(ref)
+                refkw = {"audit_flags": kw["audit_flags"]} if "audit_flags" in kw else {}
+                try:
+                    ref = make_task(step["task"], random.Random(prog["perm"] + 1))(cache_root=step["refcache"], worker="debug", **refkw)
+                    r["out"] = outputs_plain(ref)
+                except Exception as e:  # the task cannot run with this configuration at all
+                    r["ref_error"] = f"{type(e).__name__}: {str(e)[:150]}"
             elif kind == "job-load-run":
                 from pydra.engine.job import load_and_run, load_job
 
